@@ -350,6 +350,11 @@ class Abs(Operator):
 
     def __init__(self, a):
         """Initialise."""
+        # __new__ may have returned an already initialised Abs (|a| for an Abs
+        # or Conj argument): Python still calls __init__ on it, and setting the
+        # operands again would make the node its own operand.
+        if hasattr(self, "ufl_operands"):
+            return
         Operator.__init__(self, (a,))
 
     def evaluate(self, x, mapping, component, index_values):
